@@ -1904,6 +1904,12 @@ impl<'a, 'ast> Visit<'ast> for FactScan<'a> {
             "assume_init" | "assume_init_drop" | "assume_init_read" | "assume_init_mut" | "assume_init_ref" | "write" if m != "write" || self.src.slice(self.src.range(mc.receiver.span())).contains("output") => {
                 self.site(&format!("MaybeUninit::{m}"), mc.method.span());
             }
+            // `.notify()` on the registered task waker (DiatomicWaker) invokes the task waker just as `wake` does
+            "notify" if self.src.slice(self.src.range(mc.receiver.span())).trim_end().ends_with("waker") => {
+                let recv = self.src.slice(self.src.range(mc.receiver.span())).to_string();
+                let (f, l) = self.here(mc.method.span());
+                self.wake_sites.push(json!({"file": f, "line": l, "fn": self.fname(), "receiver": recv}));
+            }
             "wake_by_ref" | "wake" => {
                 let recv = self.src.slice(self.src.range(mc.receiver.span())).to_string();
                 let (f, l) = self.here(mc.method.span());
